@@ -49,7 +49,7 @@ func newAuthSpec(r *RNG, origin string, cred *KeyPair, credID, owner, pk []byte)
 		s.Ext = cborMap(cborText("appid"), []byte{0xf5})
 	}
 	if r.P(1, 3) {
-		s.CDExtra = M{"crossOrigin": false}
+		s.CDExtra = benignCDExtra(r)
 	}
 	if r.P(1, 3) {
 		s.Client = benignClientOrigin(r, origin)
